@@ -2,21 +2,21 @@
 (* Trace validation for C14: the events recorded from real goroutines (begin / end of every call, each with  *)
 (* the goroutine, the call id, at end the result digest and the digest of the shared state) must be a         *)
 (* behaviour of Concurrent.tla with SeqResult taken from the sequential baseline recorded first.              *)
-(* Lines: {"ev":"seq","call":c,"res":h} ... {"ev":"shared0","res":h} {"ev":"begin"|"end","g":g,"call":c,"res":h,"shared":h} *)
+(* Lines: {"ev":"seqmap","m":{c:h,...}} {"ev":"shared0","res":h} then {"ev":"begin"|"end","g":g,"call":c,"res":h,"shared":h} *)
 (* plus at most one {"ev":"race","n":k} line written by the driver from the race detector's report.           *)
 EXTENDS Integers, Sequences, FiniteSets, TLC, Json
 
 CONSTANTS TraceFile
 Trace == ndJsonDeserialize(TraceFile)
-SeqLines == SelectSeq(Trace, LAMBDA e : e.ev = "seq")
-Events   == SelectSeq(Trace, LAMBDA e : e.ev \in {"begin","end","race"})
-S0       == (CHOOSE i \in DOMAIN Trace : Trace[i].ev = "shared0")
-TCalls   == {SeqLines[i].call : i \in DOMAIN SeqLines}
-TSeq     == [c \in TCalls |-> (CHOOSE i \in DOMAIN SeqLines : SeqLines[i].call = c)]
+\* line 1 = {"ev":"seqmap","m":{call: result, ...}} (a record, i.e. a function from call ids), line 2 = shared0
+SeqMap   == Trace[1].m
+Events   == SubSeq(Trace, 3, Len(Trace))
+S0       == 2
+TCalls   == DOMAIN SeqMap
 TG       == {Events[i].g : i \in {j \in DOMAIN Events : Events[j].ev # "race"}}
 
 VARIABLES pc, cur, shared, done, l
-C == INSTANCE Concurrent WITH G <- TG, Calls <- TCalls, SeqResult <- [c \in TCalls |-> SeqLines[TSeq[c]].res],
+C == INSTANCE Concurrent WITH G <- TG, Calls <- TCalls, SeqResult <- SeqMap,
                               Shared0 <- Trace[S0].res, Broken <- FALSE
 
 TraceInit == C!Init /\ l = 1
